@@ -4,6 +4,7 @@
  *   k2i f v0 v1                  L := id2iso_kernel_dlogs_to_ideal_two((v0,v1), f)              -> R <norm>
  *   contains x0 x1 x2 x3 den     (signed) is (x0 + x1 i + x2 j + x3 k)/den in L ?               -> R 0|1
  *   i2iso                        id2iso_ideal_to_isogeny_even_dlogs(L)                          -> R length d0 d1 | Kx (affine, re im)
+ *   endo f x0 x1 x2 x3 den       endomorphism_application_even_basis(BASIS_EVEN·2^(F-f), E0, (x0+x1 i+x2 j+x3 k)/den, f) (signed) -> R P Q PmQ | P0 Q0 PmQ0
  *   i2k                          id2iso_ideal_to_kernel_dlogs_even(L)                           -> R w0 w1
  *   ideal bits                   I := random O0-ideal of random prime norm of `bits` bits       -> R <norm>
  *   equiv                        J := I * conj(g)/N(I) for a random g in I with N(J) odd        -> R <norm J>
@@ -77,6 +78,23 @@ int main(void)
             id2iso_ideal_to_kernel_dlogs_even(&w, &L);
             gmp_printf("R %Zx %Zx\n", w[0], w[1]);
             ibz_vec_2_finalize(&w);
+        } else if (!strcmp(t[0], "endo") && n == 7) {
+            int f = (int)a9_parse_long(t[1]);
+            quat_alg_elem_t th; quat_alg_elem_init(&th);
+            int ok = 1;
+            for (int i = 0; i < 4; i++) ok &= ibz_from_shex(&th.coord[i], t[2 + i]);
+            ok &= ibz_from_shex(&th.denom, t[6]);
+            if (!ok) { printf("R bad-op\n"); continue; }
+            ec_curve_t E0c = CURVE_E0; ec_curve_init(&E0c);
+            ec_basis_t Bf = BASIS_EVEN;
+            ec_dbl_iter(&Bf.P, TORSION_PLUS_EVEN_POWER - f, &E0c, &Bf.P);
+            ec_dbl_iter(&Bf.Q, TORSION_PLUS_EVEN_POWER - f, &E0c, &Bf.Q);
+            ec_dbl_iter(&Bf.PmQ, TORSION_PLUS_EVEN_POWER - f, &E0c, &Bf.PmQ);
+            ec_basis_t B0 = Bf;
+            endomorphism_application_even_basis(&Bf, &E0c, &th, f);
+            printf("R"); a9_print_affx(&Bf.P); a9_print_affx(&Bf.Q); a9_print_affx(&Bf.PmQ);
+            printf(" |"); a9_print_affx(&B0.P); a9_print_affx(&B0.Q); a9_print_affx(&B0.PmQ); printf("\n");
+            quat_alg_elem_finalize(&th);
         } else if (!strcmp(t[0], "i2iso") && haveL) {
             ec_isog_even_t isog; ibz_vec_2_t d; ibz_vec_2_init(&d);
             id2iso_ideal_to_isogeny_even_dlogs(&isog, &d, &L);
